@@ -187,6 +187,15 @@ def run_job(job, deadline):
                         got = e
                     want = _oracle(kind, transform, method, agg, groups, yt, yp, ww)
                     res[(fname, method, agg)] = (got, want)
+            # history: the same function object is now called WITHOUT method= (after the to_overall call): documented default is between_groups
+            kw = {"sensitive_features": labels}
+            if w is not None:
+                kw["sample_weight"] = w
+            try:
+                got = fn(yt, yp, **kw)
+            except Exception as e:
+                got = e
+            res[(fname, "default_after_to_overall", None)] = (got, _oracle(kind, transform, "between_groups", "worst_case" if kind == "eo" else None, groups, yt, yp, ww))
         return res
 
     def on_ok(ctx, res):
@@ -266,6 +275,12 @@ def _run_derived(job, acc, deadline):
                     else:
                         want = _transform(vals, ov, transform, method)
                     out[method] = (got, want)
+                if transform in ("difference", "ratio"):
+                    try:
+                        got = fn(t, p, sensitive_features=labels, sample_weight=w, beta=beta)  # no method= after a to_overall call
+                    except Exception as e:
+                        got = e
+                    out["default_after_to_overall"] = (got, _transform(vals, ov, transform, "between_groups"))
                 return out
             finally:
                 fn._metric_fn = saved
@@ -364,6 +379,16 @@ def replay(cex):
                     same = (math.isnan(got) and math.isnan(want)) or got == want or abs(got - want) <= 1e-9 * max(1, abs(want))
                     if not same:
                         bad.append(f"{fname}(method={method}{', agg=' + agg if agg else ''}) = {got!r}, definition gives {want!r}")
+            kw = {"sensitive_features": labels}
+            if job["weighted"]:
+                kw["sample_weight"] = [float(x) for x in wf]
+            want = _conc_oracle(kind, transform, "between_groups", "worst_case" if kind == "eo" else None, groups, yt, yp, wf if job["weighted"] else [1] * n)
+            try:
+                got = float(getattr(fm, fname)(yt, yp, **kw))
+                if not ((math.isnan(got) and math.isnan(want)) or abs(got - want) <= 1e-9 * max(1, abs(want))):
+                    bad.append(f"{fname}() without method= (after a method='to_overall' call) = {got!r}, documented default between_groups gives {want!r}")
+            except Exception as e:
+                bad.append(f"{fname}() raised {type(e).__name__}: {e}")
     return {"reproduced": bool(bad), "detail": "; ".join(bad)[:700] + f" | y_true={yt} y_pred={yp} groups={groups} weights={[str(x) for x in wf] if job['weighted'] else None}"}
 
 
